@@ -86,7 +86,7 @@ def analyse(case):
         k = e['k']
         if k in ('valid', 'valid-alt'):
             signers.append(e['i'])
-        elif k in ('bitflip', 'impersonate', 'prefixed'):
+        elif k in ('bitflip', 'impersonate', 'prefixed', 'borrowed'):
             reasons.add('invalid-signature')
         elif k == 'otherblk':
             reasons.add('signature-for-other-block')
@@ -117,6 +117,17 @@ def check(case):
     nodes = [ValidatorDescr('validator_addr' if v.get('addr') else 'validator', SigPubKey(pk), v['weight'],
                             hashlib.sha256(pk).digest() if v.get('addr') else None)
              for v, (_, pk) in zip(case['validators'], keys)]
+    if b['seqno'] % 4 == 1 and nodes:
+        # descriptor objects that were built with a placeholder and got their key / weight assigned afterwards (public attributes):
+        # what counts is the validator set as it is when the check is called
+        placeholder = bytes(32)
+        nodes = [ValidatorDescr(n_.type_, SigPubKey(placeholder), 0, n_.adnl_addr) for n_ in nodes]
+        for n_, v, (_, pk) in zip(nodes, case['validators'], keys):
+            if b['seqno'] % 8 == 1:
+                n_.public_key = SigPubKey(pk)
+            else:
+                n_.public_key.pubkey = pk
+            n_.weight = v['weight']
     payload = MAGIC_BLOCKID + root + file
     sigs = []
     for e in case['sigs']:
@@ -155,6 +166,9 @@ def check(case):
             sk, pk = keys[e['i']]                            # sig64 || extra: not a signature over this block's identifier
             extra_b = hashlib.sha256(b'c12/extra/%d' % e['n']).digest()[:1 + e['n'] % 32]
             s = sk.sign(extra_b + payload).signature + extra_b
+        elif k == 'borrowed':                                # member i's id over ANOTHER member's genuine signature bytes (that
+            _, pk = keys[e['i']]                             # member's own entry may stand earlier in the list, or in an earlier call)
+            s = keys[e['from']][0].sign(payload).signature
         elif k == 'impersonate':                             # member's id, signature made with a foreign key
             sk, _ = _key(e['seed'])
             _, pk = keys[e['i']]
@@ -234,6 +248,12 @@ def enum_small(tier):
                                                  'bit': (mask * 11) % 256}] + base[1:]))
                     shapes.append(('impersonate', base[1:] + [{'k': 'impersonate', 'i': m, 'seed': _seed(f'x{n}/{mask}')}]))
                     shapes.append(('prefixed', base[1:] + [{'k': 'prefixed', 'i': m, 'n': mask}]))
+                    if len(members) >= 1 and n >= 2:
+                        other = next(i for i in range(n) if i != m)
+                        # the genuine entry of m first, then m's signature bytes again under another member's id (and the reverse order)
+                        shapes.append(('borrowed-after-genuine', base + [{'k': 'borrowed', 'i': other, 'from': m}] if other not in members
+                                       else [e for e in base if e['i'] != other] + [{'k': 'borrowed', 'i': other, 'from': m}]))
+                        shapes.append(('borrowed-before-genuine', [{'k': 'borrowed', 'i': other, 'from': m}] + [e for e in base if e['i'] != other]))
                     shapes.append(('prefixed-all', [{'k': 'prefixed', 'i': i, 'n': mask + i} for i in members]))
                 shapes.append(('nonmember', base + [{'k': 'nonmember', 'seed': _seed(f'nm{n}/{mask}')}]))
                 for sname, sl in shapes:
@@ -277,12 +297,12 @@ def _case(draw):
     sigs = [{'k': 'valid', 'i': i} for i in signers]
     # adversarial elements
     adv = draw(st.sampled_from(['none', 'none', 'none', 'dup', 'dup-many', 'bitflip', 'otherblk', 'nonmember',
-                                'impersonate', 'prefixed', 'mix']))
+                                'impersonate', 'prefixed', 'borrowed', 'mix']))
     if mode == 'repeat-one' and adv == 'none':
         adv = 'dup-many'
     extra = []
     kinds = {'dup': ['dup'], 'dup-many': ['dup'] * draw(st.integers(2, 8)), 'mix': draw(st.lists(
-        st.sampled_from(['dup', 'bitflip', 'otherblk', 'nonmember', 'impersonate', 'prefixed']), min_size=2, max_size=4))}.get(adv, [adv])
+        st.sampled_from(['dup', 'bitflip', 'otherblk', 'nonmember', 'impersonate', 'prefixed', 'borrowed']), min_size=2, max_size=4))}.get(adv, [adv])
     for j, kd in enumerate(kinds):
         if kd == 'none':
             continue
@@ -307,6 +327,14 @@ def _case(draw):
             extra.append({'k': 'impersonate', 'i': draw(st.integers(0, n - 1)), 'seed': _seed(f'{tag}/im{j}')})
         elif kd == 'prefixed':
             extra.append({'k': 'prefixed', 'i': draw(st.integers(0, n - 1)), 'n': draw(st.integers(0, 255))})
+        elif kd == 'borrowed':
+            if n < 2:
+                extra.append({'k': 'nonmember', 'seed': _seed(f'{tag}/nm{j}')})
+            else:
+                src = draw(st.sampled_from(signers)) if signers else draw(st.integers(0, n - 1))
+                dst = draw(st.sampled_from([i for i in range(n) if i != src]))
+                sigs[:] = [e for e in sigs if e.get('i') != dst]          # dst has no genuine entry of its own: its only entry is the borrowed one
+                extra.append({'k': 'borrowed', 'i': dst, 'from': src})
     sigs = list(draw(st.permutations(sigs + extra))) if extra else sigs
     h = st.one_of(st.binary(min_size=32, max_size=32), st.sampled_from([b'\x00' * 32, b'\xff' * 32]))
     blk = {'wc': draw(st.sampled_from([-1, 0, 1, -2 ** 31, 2 ** 31 - 1])),
